@@ -504,10 +504,21 @@ class WsgiApplication(HttpBase):
         try:
             self.get_out_string(p_ctx)
 
+            if not self.chunked:
+                # a lazy out_string runs (the rest of) the user code here
+                p_ctx.out_string = [b''.join(p_ctx.out_string)]
+
         except Exception as e:
             logger.exception(e)
-            p_ctx.out_error = Fault('Server', get_fault_string_from_exception(e))
+            if isinstance(e, Fault):
+                p_ctx.out_error = e
+            else:
+                p_ctx.out_error = Fault('Server',
+                                             get_fault_string_from_exception(e))
             p_ctx.transport.resp_code = None
+            # what was serialized so far belongs to the abandoned response
+            p_ctx.out_document = None
+            p_ctx.out_string = None
             p_ctx.fire_event('method_exception_object')
             return self.handle_error(p_ctx, others, p_ctx.out_error,
                                                                  start_response)
@@ -540,8 +551,6 @@ class WsgiApplication(HttpBase):
             # input is just an iterable.
             if 'Content-Length' in p_ctx.transport.resp_headers:
                 del p_ctx.transport.resp_headers['Content-Length']
-        else:
-            p_ctx.out_string = [b''.join(p_ctx.out_string)]
 
         try:
             len(p_ctx.out_string)
